@@ -74,7 +74,7 @@ pub fn transfer(c: &Case, rep: &mut Report) -> Result<&'static str, (String, Str
     let app = |call: &AppCall| -> AppReply {
         // the resource "r" serves the body under test, everything else serves another body
         let path: Vec<&[u8]> = call.request.options.iter().filter(|o| o.0 == 11).map(|o| &o.1[..]).collect();
-        if path == [b"r"] && call.ep == 1 && call.request.mid >= 1000 {
+        if path.len() == 1 && path[0] == b"r" && call.ep == 1 && call.request.mid >= 1000 {
             AppReply { code: app_code, options: app_opts.clone(), payload: the_body.clone() }
         } else {
             AppReply { code: 0x45, options: vec![], payload: other_body.clone() }
@@ -114,6 +114,9 @@ pub fn transfer(c: &Case, rep: &mut Report) -> Result<&'static str, (String, Str
             // unfinished transfers under other keys (other path; other endpoint)
             srv.exchange(1, &get(next_mid(&mut mid), &["other"], None), &app);
             srv.exchange(2, &get(next_mid(&mut mid), &["r"], None), &app);
+            // ... and under paths that differ from ["r"] only by an empty segment (different resources)
+            srv.exchange(1, &get(next_mid(&mut mid), &["r", ""], None), &app);
+            srv.exchange(1, &get(next_mid(&mut mid), &["", "r"], None), &app);
         }
         3 => {
             srv.exchange(1, &get(next_mid(&mut mid), &["r"], None), &app);
